@@ -740,6 +740,50 @@ theorem aggFoldOracle_of_gcd (hg : GcdOracleOk opq) (hs : StrFoldSound opq) : Ag
 theorem simplify_sound_gcd (hc : OracleClosed opq) (hg : GcdOracleOk opq) (hs : StrFoldSound opq) : SimplifySound opq :=
   simplify_sound_oracle opq hc (aggFoldOracle_of_gcd opq hg hs)
 
+/-- the oracle's `str`, where it has a value on the value of a literal, is the text Python's `str` gives for that literal -/
+def StrOracleOk : Prop := ∀ (lv : LitVal) (x : Value) (rest : List Value) (s : String) (w : Value),
+  litValue lv = .ok x → pyStr lv = .ok s → opq "str" (x :: rest) = .ok w → w = .prim (.str s)
+
+/-- **the folding of `str` is sound** for every oracle whose `str` agrees with Python's on literals -/
+theorem str_fold_sound (hs : StrOracleOk opq) : StrFoldSound opq := by
+  intro f t args r ihS h ρ v hv
+  unfold simpCall at h
+  extract_lets arg0 at h
+  simp only [show ("str" == "abs") = false by decide, show ("str" == "bool") = false by decide, show ("str" == "int") = false by decide,
+    show ("str" == "float") = false by decide, show ("str" == "str") = true by decide, Bool.false_eq_true, ↓reduceIte] at h
+  obtain ⟨a, ha, h⟩ := bind_ok h
+  have hap : ∀ xs, applyFun opq "str" xs = opq "str" xs := by
+    intro xs
+    unfold applyFun
+    split <;> first | rfl | (rename_i heq; exact absurd heq (by decide))
+  cases hl : litVal? a with
+  | none => rw [hl] at h; simp only at h; cases h; exact hv
+  | some lv =>
+    rw [hl] at h
+    simp only at h
+    obtain ⟨s, hps, h⟩ := bind_ok h
+    split at h
+    · simp [unmodelled] at h
+    · cases h
+      obtain ⟨xs, hxs, happ⟩ := call_unfold opq hv
+      rw [hap] at happ
+      cases args with
+      | nil => simp only [arg0] at ha; cases ha
+      | cons a0 rest =>
+        simp only [arg0] at ha
+        obtain ⟨v0, xs', h0, _, rfl⟩ := evalList_cons_inv opq hxs
+        have e0 := ihS _ _ ha ρ _ h0
+        obtain ⟨ta, ka, rfl⟩ := litVal_some hl
+        rw [eval_lit] at e0
+        have := hs lv v0 xs' s v e0 hps happ
+        subst this
+        rfl
+
+/-- **`simplify` preserves meaning — nothing assumed about the rewriter**: for every oracle that does not extend the interpreted
+    functions and whose `gcd` and `str`, where they have a value, are Python's -/
+theorem simplify_sound_of_oracle (hc : OracleClosed opq) (hg : GcdOracleOk opq) (hs : StrOracleOk opq) : SimplifySound opq :=
+  simplify_sound_gcd opq hc hg (str_fold_sound opq hs)
+
 /-- an oracle that gives `str` and `gcd` no value meets the assumption -/
 theorem aggFoldOracle_of_silent (hs : ∀ xs v, opq "str" xs ≠ .ok v) (hg : ∀ xs v, opq "gcd" xs ≠ .ok v) : AggFoldSoundOracle opq := by
   intro f t fn args r hm _ _ ρ v hv
@@ -766,5 +810,48 @@ def silentOracle : Opaque := fun _ _ => .error .type
 theorem simplify_sound_silent : SimplifySound silentOracle :=
   simplify_sound_oracle silentOracle (fun _ _ _ _ h => by cases h)
     (aggFoldOracle_of_silent silentOracle (fun _ _ h => by cases h) (fun _ _ h => by cases h))
+
+/-- an oracle that is not silent: `str` of a boolean or of a string -/
+def sampleOracle : Opaque := fun fn xs =>
+  match fn, xs with
+  | "str", [.prim (.bool b)] => .ok (.prim (.str (if b then "True" else "False")))
+  | "str", [.prim (.str s)] => .ok (.prim (.str s))
+  | _, _ => .error .opaque
+
+/-- the premises of `simplify_sound_of_oracle` are met by an oracle that does give `str` values -/
+theorem sampleOracle_ok : OracleClosed sampleOracle ∧ GcdOracleOk sampleOracle ∧ StrOracleOk sampleOracle ∧
+    sampleOracle "str" [.prim (.bool true)] = .ok (.prim (.str "True")) := by
+  refine ⟨?_, ?_, ?_, rfl⟩
+  · intro fn hfn xs v
+    simp only [interpretedFuns, List.mem_cons, List.not_mem_nil, or_false] at hfn
+    unfold sampleOracle
+    rcases hfn with rfl | rfl | rfl | rfl | rfl | rfl | rfl | rfl | rfl | rfl | rfl <;>
+      (split <;> first | (rename_i heq; exact absurd heq (by decide)) | (intro hh; cases hh))
+  · intro m n w h
+    unfold sampleOracle at h
+    split at h
+    · rename_i hfn _; exact absurd hfn (by decide)
+    · rename_i hfn _; exact absurd hfn (by decide)
+    · cases h
+  · intro lv x rest s w hx hp h
+    unfold sampleOracle at h
+    split at h
+    · rename_i b _ heq
+      simp only [List.cons.injEq] at heq
+      obtain ⟨rfl, rfl⟩ := heq
+      cases lv <;> simp only [litValue, Value.bool, Value.num, Except.ok.injEq, Value.prim.injEq] at hx <;> try (cases hx)
+      simp only [pyStr, Except.ok.injEq] at hp
+      cases h; rw [← hp]
+    · rename_i s' _ heq
+      simp only [List.cons.injEq] at heq
+      obtain ⟨rfl, rfl⟩ := heq
+      cases lv <;> simp only [litValue, Value.bool, Value.num, Except.ok.injEq, Value.prim.injEq] at hx <;> try (cases hx)
+      simp only [pyStr, Except.ok.injEq] at hp
+      cases h; rw [← hp]
+    · cases h
+
+/-- hence, for that oracle, with no hypothesis -/
+theorem simplify_sound_sample : SimplifySound sampleOracle :=
+  simplify_sound_of_oracle sampleOracle sampleOracle_ok.1 sampleOracle_ok.2.1 sampleOracle_ok.2.2.1
 
 end Hpl
